@@ -18,8 +18,8 @@ NL = "\n"
 ALPHABETS = {
     # name: (chars, MaxLen quick, MaxLen thorough, MaxAlt quick, MaxAlt thorough)
     "punct": (list("{}[]#\\^|~") + ["a", " ", NL, "=", "<"], 3, 3, 2, 3),
-    "ops":   (list("^|&=<>~!+-") + ["a", ";"], 3, 4, 2, 3),
-    "quote": (['"', "'", "\\", "{", "#", "|", "a", NL, "n", "/", "*"], 3, 4, 2, 3),
+    "ops":   (list("^|&=<>~!+-") + ["a", ";"], 3, 4, 2, 2),        # MaxLen 4 x MaxAlt 3 is ~5e6 pairs: more than the harness holds
+    "quote": (['"', "'", "\\", "{", "#", "|", "a", NL, "n", "/", "*"], 3, 4, 2, 2),
 }
 
 
